@@ -1798,7 +1798,67 @@ def m_option_map(ex, st, fr, callee, args, argtys, dty):
     return Fork(alts)
 
 
+def m_ok_or_else(ex, st, fr, callee, args, argtys, dty):
+    opt, f = args
+    v = _deref_val(ex, st, opt)
+    d = ex.discr(st, v, argtys[0])
+    alts = []
+    payload = variant_payload(ex, st, v, "Some", _generic_arg(argtys[0], 0))
+    if payload is not None:
+        alts.append((d == 1, Agg("Result", "Ok", [payload])))
+    inl = closure_call(ex, st, f, [], wrap=lambda r: Agg("Result", "Err", [r]))
+    if inl is None:
+        return NotImplemented
+    alts.append((d == 0, inl))
+    return Fork(alts)
+
+
+def m_ok_or(ex, st, fr, callee, args, argtys, dty):
+    opt, e = args
+    v = _deref_val(ex, st, opt)
+    d = ex.discr(st, v, argtys[0])
+    alts = [(d == 0, Agg("Result", "Err", [e]))]
+    payload = variant_payload(ex, st, v, "Some", _generic_arg(argtys[0], 0))
+    if payload is not None:
+        alts.append((d == 1, Agg("Result", "Ok", [payload])))
+    return Fork(alts)
+
+
+def m_map_err(ex, st, fr, callee, args, argtys, dty):
+    res, f = args
+    v = _deref_val(ex, st, res)
+    d = ex.discr(st, v, argtys[0])
+    alts = []
+    okp = variant_payload(ex, st, v, "Ok", _generic_arg(argtys[0], 0))
+    if okp is not None:
+        alts.append((d == 0, Agg("Result", "Ok", [okp])))
+    errp = variant_payload(ex, st, v, "Err", _generic_arg(argtys[0], 1))
+    if errp is not None:
+        inl = closure_call(ex, st, f, [errp], wrap=lambda r: Agg("Result", "Err", [r]))
+        if inl is None:
+            return NotImplemented
+        alts.append((d == 1, inl))
+    return Fork(alts)
+
+
+def m_unwrap_or(ex, st, fr, callee, args, argtys, dty):
+    opt, dflt = args
+    v = _deref_val(ex, st, opt)
+    d = ex.discr(st, v, argtys[0])
+    head = ty_head(argtys[0])
+    var, good = ("Some", 1) if head == "Option" else ("Ok", 0)
+    alts = [(d != good, dflt)]
+    payload = variant_payload(ex, st, v, var, dty)
+    if payload is not None:
+        alts.append((d == good, payload))
+    return Fork(alts)
+
+
 STD_MODELS = [
+    (r"^Option::<.*>::ok_or_else::<", m_ok_or_else),
+    (r"^Option::<.*>::ok_or::<", m_ok_or),
+    (r"^Result::<.*>::map_err::<", m_map_err),
+    (r"^(Option|Result)::<.*>::unwrap_or$", m_unwrap_or),
     (r"^Option::<.*>::map_or::<", m_option_map_or),
     (r"^Option::<.*>::map::<", m_option_map),
     (r"^<.* as Clone>::clone$", m_clone),
